@@ -333,7 +333,15 @@ def compare(o, got, ref, fitted=False, sigma=None):
     if not fitted:
         ok = np.allclose(A, B, rtol=1e-9, atol=1e-12, equal_nan=True)
     elif o == "pvals" and sigma is not None and np.all(np.isfinite(np.asarray(sigma, dtype=float))):
-        ok = np.all(np.abs(A - B) <= 0.02 * np.maximum(np.asarray(sigma, dtype=float), 1e-12) + 1e-9)
+        # a parameter without uncertainty (fixed after the fit, at its fitted value): 1e-3 of its magnitude stands in for sigma
+        sg = np.asarray(sigma, dtype=float)
+        sg = np.where(sg > 0, sg, 1e-3 * np.maximum(np.abs(B), 1e-3)) if sg.shape == B.shape else np.maximum(sg, 1e-12)
+        ok = np.all(np.abs(A - B) <= 0.02 * sg + 1e-9)
+    elif o == "pcov" and A.ndim == 2 and A.shape[0] == A.shape[1]:
+        # covariances are compared on the scale of the uncertainties: an off-diagonal element near zero is noise of size ~1e-3 sigma_i sigma_j
+        dg = np.sqrt(np.abs(np.diag(B)))
+        ok = bool(np.all(np.abs(np.nan_to_num(A) - np.nan_to_num(B)) <= 0.05 * np.abs(np.nan_to_num(B)) + 2e-3 * np.outer(dg, dg) + 1e-12)) \
+            and np.array_equal(np.isnan(A), np.isnan(B))
     elif o in POSTFIT_SENSITIVE:
         ok = np.allclose(A, B, rtol=0.05, atol=1e-6, equal_nan=True)
     else:
